@@ -236,5 +236,18 @@ package client
 //@ props C12
 //@ arith int
 //@ requires tlc != nil
+//@ requires [shards-as-NewTemporalLogClient-builds-them] forall j int :: 0 <= j && j < len(tlc.Clients) ==> tlc.Clients[j] != nil && tlc.Clients[j].httpClient != nil
+//@ loop 1 invariant forall j int :: 0 <= j && j < len(tlc.Clients) ==> tlc.Clients[j] != nil && tlc.Clients[j].httpClient != nil
 //@ loop 2 step-assert [no-answer-is-collected-after-a-failed-shard] r.err == nil
 //@ ensures [an-error-comes-with-no-roots] result1 != nil ==> len(result0) == 0
+
+// The goroutine per shard: it asks that shard and reports exactly its answer (roots and error).
+//@ func (*TemporalLogClient).GetAcceptedRoots$1
+//@ props C12
+//@ modifies nothing
+//@ frame-trusted the goroutine builds a result of its own and reports it on the channel
+//@ site GetAcceptedRoots#1 as g
+//@ site send#1 as s
+//@ requires c != nil && c.httpClient != nil
+//@ at g assert [asks-its-own-shard] g.c == c
+//@ at s assert [reports-exactly-that-shards-answer] s.x.roots == g.res0 && s.x.err == g.res1
